@@ -300,6 +300,21 @@ def h_stack(ctx, values, twin=None):
     ctx.require(before == after, "the caller's list and values are left unmodified")
     cell2 = VmStack.serialize(data)
     ctx.require(cell2.hash == cell.hash, 'serialising twice gives the same cell')
+    # a builder the caller goes on using between two serialisations (same lengths, other content): the second cell holds what
+    # the builder holds then
+    for v in vals:
+        if v.kind == 'builder' and len(v.lib.refs):
+            other = Builder().store_uint(0x2b, 7).end_cell()
+            refs = list(v.lib.refs)
+            refs[0] = other
+            v.lib.refs = refs
+            changed = VmStack.serialize(data)
+            sc2 = SC(ORD, v.sc.bits, [SC(ORD, '0101011', [])] + list(v.sc.refs[1:]))
+            spec2 = warm(enc_stack([Val('builder', v.lib, sc=sc2) if x is v else x for x in vals]))
+            ctx.require(same_structure(changed, spec2), 'a builder changed between two serialisations is serialised as it stands')
+            v.sc = sc2
+            cell = changed
+            break
     back = VmStack.deserialize(cell.begin_parse())
     ctx.require(isinstance(back, list) and len(back) == len(vals), 'parsing returns as many values')
     if isinstance(back, list) and len(back) == len(vals):
